@@ -70,3 +70,64 @@ Proof. vm_compute. repeat split; reflexivity. Qed.
 (* seed position: (A,B,(C,D)) seeded at the inner node *)
 Example ex_uequiv : uequiv (nd 0 [lf 1 0; lf 2 1; nd 3 [lf 4 2; lf 5 3]]) (nd 3 [lf 4 2; lf 5 3; nd 0 [lf 1 0; lf 2 1]]).
 Proof. apply (ue_rot 0 None None None [lf 1 0; lf 2 1] 3 None None None [lf 4 2; lf 5 3] [] 3 None None None 0 None None None); discriminate. Qed.
+
+(* from_split_bitmasks: a namespace with a vacated accession index (bit 2) and the four taxa of a
+   rooted tree; the encoding handed over in two different orders *)
+From DV Require Import Proofs.C01From.
+
+Definition acc4 (x : Z) : Z := if 0 <=? x then (if x <? 2 then 2 * x else 2 * x + 2) else - 2 * x + 1.
+
+Example acc4_ok : (forall x, 0 <= acc4 x) /\ (forall x y, acc4 x = acc4 y -> x = y).
+Proof.
+  unfold acc4. split.
+  - intro x. destruct (0 <=? x) eqn:E, (x <? 2) eqn:E2; lia.
+  - intros x y. destruct (0 <=? x) eqn:E1, (x <? 2) eqn:E2, (0 <=? y) eqn:E3, (y <? 2) eqn:E4; lia.
+Qed.
+
+Definition ns4 : list (Z * Z) := [(0, 0); (1, 2); (2, 6); (3, 8)].
+Definition tr4 : tree := nd 0 [nd 1 [lf 2 0; lf 3 2]; nd 4 [lf 5 1; lf 6 3]].
+
+Example ns4_ok : ns_ok acc4 ns4 /\ (2 <= length ns4)%nat /\ leaves_ok tr4 = true /\
+  Permutation (leaf_taxa tr4) (map (fun p => Some (fst p)) ns4) /\ (forall p, In p ns4 -> snd p < 9).
+Proof.
+  split; [| split; [| split; [| split]]].
+  - split.
+    + simpl. repeat constructor; simpl; intuition lia.
+    + repeat constructor; simpl; lia.
+  - simpl. lia.
+  - reflexivity.
+  - simpl. apply perm_skip. apply perm_swap.
+  - intros p [<- | [<- | [<- | [<- | []]]]]; simpl; lia.
+Qed.
+
+Example from_splits_ex :
+  enc_splits (encode acc4 (Some true) tr4) = [1; 64; 65; 4; 256; 260; 325] /\
+  canon acc4 (to_tree (from_splits ns4 9 (Some true) [325; 260; 4; 65; 256; 1; 64])) = canon acc4 tr4 /\
+  canon acc4 (to_tree (from_splits ns4 9 (Some true) [65; 1; 325; 64; 260; 256; 4])) = canon acc4 tr4 /\
+  from_splits ns4 9 (Some true) [260; 65] <> from_splits ns4 9 (Some true) [65; 260].
+Proof. vm_compute. repeat split; try reflexivity. discriminate. Qed.
+
+(* unrooted canonical form: seed position, child order, unifurcations and a basal bifurcation do not
+   matter; a different unrooted topology does *)
+From DV Require Import Proofs.C01Unrooted.
+
+Definition u1 : tree := nd 0 [lf 1 0; lf 2 1; nd 3 [lf 4 2; nd 5 [lf 6 3; lf 7 4]]].
+(* same unrooted tree, seeded at the innermost node, children permuted, a unifurcation inserted *)
+Definition u1' : tree := nd 5 [lf 7 4; nd 9 [nd 3 [nd 0 [lf 2 1; lf 1 0]; lf 4 2]]; lf 6 3].
+(* same unrooted tree with a basal bifurcation *)
+Definition u1'' : tree := nd 8 [nd 0 [lf 1 0; lf 2 1]; nd 3 [lf 4 2; nd 5 [lf 6 3; lf 7 4]]].
+(* a different one: ((0,2),1,(3,4)) *)
+Definition u2 : tree := nd 0 [nd 3 [lf 1 0; lf 4 2]; lf 2 1; nd 5 [lf 6 3; lf 7 4]].
+
+Example ucanon_ex :
+  ucanon acc_ex u1 = ucanon acc_ex u1' /\ ucanon acc_ex u1 = ucanon acc_ex u1'' /\
+  ucanon acc_ex u1 <> ucanon acc_ex u2 /\
+  leaves_ok u1 = true /\ leaves_ok u1' = true /\ leaves_ok u2 = true /\
+  cmask acc_ex u1 = cmask acc_ex u1' /\ cmask acc_ex u1 = cmask acc_ex u2.
+Proof. vm_compute. repeat split; try reflexivity. discriminate. Qed.
+
+Example usplits_ex :
+  enc_splits (encode acc_ex None u1) = [1360; 16; 64; 256; 1024; 1280; 1344; 0] /\
+  enc_splits (encode acc_ex (Some false) u1') = [1024; 16; 1360; 1344; 64; 1280; 256; 0] /\
+  enc_splits (encode acc_ex None u2) = [1360; 64; 1296; 16; 256; 1024; 1280; 0].
+Proof. vm_compute. repeat split; reflexivity. Qed.
